@@ -113,7 +113,7 @@ CHECKS = {
                 "hsc_lifecycle_stats/create_snapshot/ids_for_metadata_filter/update_predictor/access-logger writes/strategy stats) after a 0-6 operation warm-up, x cache strategy "
                 "{LRU, learned, learned+semantic, A/B} x persistence on/off (file-system calls are scheduling points too) x snapshot interval {0,1,2,1000}; 8 seeded schedules per program. A third of the programs (2-4 threads) issue insert / delete / batch_delete / update_metadata / create_snapshot / reads / filter reads directly against the cold tier (HnswBackend is public API; no tiered write gate in between, persistence on, index capacity 6 or 1000 so that tombstone compaction runs concurrently too). "
                 "evaluations = schedules executed to completion or to an all-blocked state. distinct_nontrivial = distinct hashes of the (thread, lock ordinal, operation) decision trace "
-                "with more than 2 decisions. Every 16th run records acquisition sites; site-level 2-cycles of the accumulated lock-order graph are reported as probes only.",
+                "with more than 2 decisions. Every 16th run records acquisition sites; site-level 2-cycles of the accumulated lock-order graph are reported as probes only. The two filter operations of the catalogue use a malformed filter (NOT without operand, which the inverted index cannot compile: scan fallback) a third / a quarter of the time.",
         "assumptions": [
             "schedules are sampled, not enumerated up to a preemption bound",
             "rayon/tokio helper threads are not scheduled (they run while their controlled caller is blocked in join)",
@@ -234,7 +234,7 @@ CHECKS = {
                 "{5, 05, +5, 5.0, 5e0, -0, 0, inf, -inf, NaN, ' 5', '', e-acute, 10, a, -3.5, 300-char}; merges that turn numeric values into strings and back; 1/8 of the inserts and 1/10 of the replacements carry no metadata at all (such documents belong to every NOT / match-all / empty-AND selection). At seeded steps (and after metadata updates, deletes, restarts) a batch of filters is "
                 "evaluated: a rotating window of the exhaustive leaf catalogue (no filter, empty and/or/not, range without bound, every exact and every range operator x every value x every key incl. a missing key, each also under NOT; 486 filters) "
                 "plus seeded trees to depth 4. ids_for_metadata_filter(f) == {id in model | ref(f, metadata)}; metadata_filter::matches agrees with ref on every (filter, live metadata) pair; TieredEngine::batch_delete_by_metadata_filter(f) removes "
-                "exactly that set (canonical census before/after). evaluations = filters evaluated against the live engine. distinct_nontrivial = distinct (filter, selected id set) pairs whose selected set is neither empty nor everything.",
+                "exactly that set (canonical census before/after). evaluations = filters evaluated against the live engine. distinct_nontrivial = distinct (filter, selected id set) pairs whose selected set is neither empty nor everything. A third of the evaluation batches and a sixth of the filtered deletes also carry towers of and / or / not wrappers 5-200 levels high (heights around 32 and 64) over a leaf or a small tree.",
         "assumptions": ["the filter semantics by themselves are a pure function; the claim is about the selection staying exact inside histories (index maintenance, compaction, recovery, filtered delete)", "start-up recount of the server is judged by C14"],
         "expected_probes": ["filtered_batch_delete"],
         "tiers": {"quick": {"runs_per_worker": 1000000, "budget_s": 30}, "thorough": {"runs_per_worker": 10000000, "budget_s": 600}},
@@ -324,7 +324,7 @@ CHECKS = {
                 "(3) a refused incremental ('No new WAL files') only when the live census still equals the parent's; (4) non-empty target without confirmation: refused and byte-identical; dry run: byte-identical; "
                 "(5) [a third of the damaged chains go through the point-in-time entry point, accepted restores then compared with every backup's collection; the restore of a damaged chain runs in a forked child and a killed child counts as accepted damage] 24 (60 thorough) damages of a chain's archive or metadata file (1/6 truncations at 0 / len-1 / len/2 / random, else one bit flipped at a structural offset (first 48 bytes) or a random offset), restore with confirmation into a populated target: refused with the target byte-identical, or accepted with census == expected. "
                 "1 of 5 runs: 2-9 (2-14 thorough) synthetic backups (ages across minute/hour/day/week/month boundaries, chains and branches) x retention policy from {0,1,2,24} h x {0,1,7} d x {0,1,4} w x {0,1,12} m x min age {0,1,30} d at a simulated now: after prune_backups every retained backup still has its whole parent chain and nothing younger than the minimum age is gone. "
-                "evaluations = restores + prunes judged. distinct_nontrivial = distinct (backup kinds, collection sizes) digests.",
+                "evaluations = restores + prunes judged. distinct_nontrivial = distinct (backup kinds, collection sizes) digests. Half of the restored backups are restored a second time while 1-2 storage calls on the target fail (write errno, short write, fsync, open): a restore that reports success must start with the backup's collection, one that fails loudly is fine.",
         "assumptions": ["backups are taken while the engine is idle but open (fsync always), as the kyrodb_backup binary does against a running server's directory", "S3 upload/download and the CLI argument parsing are not exercised",
                         "file mtimes are stamped from the simulated clock by the libc seam on every open-for-write / write / truncate below the data directory"],
         "expected_probes": ["crash_inside_a_procedure", "full_backups_of_crashed_directory", "operation_succeeded_despite_storage_fault", "operation_failed_under_storage_fault", "full_backups", "incremental_backups", "incremental_after_snapshot_and_compaction", "incremental_after_restart", "incremental_refused_no_new_wal", "pitr_restores_judged", "pitr_before_first_backup_refused", "guard_refused_non_empty_target", "damaged_backup_rejected", "damage_harmless_restore_equal", "retention_pruned_something"],
